@@ -270,9 +270,9 @@ def run_shard(ctx):
   sys.setrecursionlimit(10000)
   part_fixed(ctx)
   if ctx.quick():
-    part_generated(ctx, 14)
-    part_mutants(ctx, 30)
-    part_corpus(ctx, max_lines=250, limit=32, budget_s=120)
+    part_generated(ctx, 7)
+    part_mutants(ctx, 14)
+    part_corpus(ctx, max_lines=200, limit=16, budget_s=120)
   else:
     part_generated(ctx, 1500)
     part_mutants(ctx, 2500)
